@@ -24,6 +24,23 @@ fn statements() -> Vec<String> {
 /// second world: a regex table with a DEFAULT column (lines that match no pattern are still rows) and joins
 const RDEF: &str = "CREATE TABLE d(line = '^([a-z]+) ([0-9]+)?$', line[1] => k TEXT, line[2] => v INT DEFAULT 7);";
 
+/// third world: a TEXT column whose value can be the empty string (not NULL)
+const EDEF: &str = "CREATE TABLE e(line = '^([a-z]+)=([a-z]*)$', line[1] => k TEXT, line[2] => s TEXT);";
+
+fn elines() -> Vec<&'static str> {
+    vec!["a=", "a=x", "b=", "a=y", "b=z", "nomatch 1"]
+}
+
+fn statements3() -> Vec<String> {
+    vec![
+        "SELECT k, STRING_AGG(s, ',') FROM e GROUP BY k".into(),
+        "SELECT STRING_AGG(s, '-'), COUNT(s) FROM e".into(),
+        "SELECT k, COUNT(*) FROM e GROUP BY k HAVING STRING_AGG(s, ',') = ',x'".into(),
+        "SELECT k, MIN(s), MAX(s), COUNT(DISTINCT s), ARRAY_AGG(s) FROM e GROUP BY k".into(),
+        "SELECT DISTINCT s FROM e".into(),
+    ]
+}
+
 fn rlines() -> Vec<&'static str> {
     vec!["a 1", "b 2", "a ", "ZZZ", "", "b 5"]
 }
@@ -47,7 +64,7 @@ fn statements2(joined: &str) -> Vec<String> {
 }
 
 fn check_history(tables: &Tables, stmt_text: &str, si: usize, hist: &[u8]) -> (Vec<Failure>, bool, u64) {
-    let al = if stmt_text.contains(" FROM d") { rlines() } else { jlines() };
+    let al = if stmt_text.contains(" FROM d") { rlines() } else if stmt_text.contains(" FROM e") { elines() } else { jlines() };
     let lines: Vec<&str> = hist.iter().map(|i| al[*i as usize]).collect();
     let st = sut::parse(stmt_text).expect(stmt_text);
     let mut out = Vec::new();
@@ -139,10 +156,11 @@ fn check_history(tables: &Tables, stmt_text: &str, si: usize, hist: &[u8]) -> (V
 
 pub fn run(ctx: &Ctx) -> i32 {
     let col = Arc::new(Collector::new());
-    let tables = Arc::new(sut::make_tables(&format!("{}\n{}\n{}", JDEF, JDEF_U, RDEF)).unwrap());
+    let tables = Arc::new(sut::make_tables(&format!("{}\n{}\n{}\n{}", JDEF, JDEF_U, RDEF, EDEF)).unwrap());
     let joined_tmp = sut::TempFiles::new(&[b"{\"k\":\"a\",\"y\":1}\nnoise\n{\"k\":\"a\",\"y\":2}\n{\"k\":\"c\",\"y\":3}\n{\"y\":4}\n"]);
     let mut stmts = statements();
     stmts.extend(statements2(&joined_tmp.paths[0]));
+    stmts.extend(statements3());
     let depth = ctx.tier.pick(4, 7);
     let k = jlines().len() as u8;
     let mut complete = true;
@@ -289,7 +307,7 @@ pub fn run(ctx: &Ctx) -> i32 {
 }
 
 pub fn replay(case: &J) -> Vec<Failure> {
-    let tables = sut::make_tables(&format!("{}\n{}\n{}", JDEF, JDEF_U, RDEF)).unwrap();
+    let tables = sut::make_tables(&format!("{}\n{}\n{}\n{}", JDEF, JDEF_U, RDEF, EDEF)).unwrap();
     if case["layer"].as_str() == Some("follow-executor") {
         println!("note: follow-executor cases are replayed by re-running `./check C11 quick`");
         return vec![];
